@@ -413,6 +413,40 @@ def part_c(ctx, nhist):
     ctx.sample({"history": trace})
 
 
+def part_c2(ctx):
+    """One builder, create() called again after a configuration file was added: the explicit values given to the builder before still
+    beat the file, the file still beats the built-in defaults (for the context created last; the earlier one is the known finding's matter)."""
+    from nunavut.lang import LanguageContextBuilder
+    d = pathlib.Path(ctx.sub("yamlc2"))
+    for lang in ("c", "cpp", "py"):
+        for k, (okey, oval, fval) in enumerate((("extension", ".xq1", ".fq2"), ("options", {"target_endianness": "big"}, {"target_endianness": "little"}))):
+            b = LanguageContextBuilder(include_experimental_languages=True).set_target_language(lang)
+            b.set_target_language_configuration_override(okey, oval)
+            first = b.create()
+            p = d / ("later_%s_%d.yaml" % (lang, k))
+            p.write_text(yaml.safe_dump({"nunavut.lang." + lang: {okey: fval, "namespace_file_stem": "stemq%d" % k}}))
+            b.add_config_files(p)
+            try:
+                second = b.create()
+            except Exception as e:
+                ctx.count("second_create_refused[%s]" % type(e).__name__)
+                continue
+            ctx.count("evaluations")
+            ctx.count("second_create_after_file_cases")
+            tl = second.get_target_language()
+            got = tl.extension if okey == "extension" else tl.get_option("target_endianness")
+            want = oval if okey == "extension" else oval["target_endianness"]
+            if got != want:
+                ctx.refute(None, "create() called again after a configuration file was added: the file's %s=%r displaced the explicit value %r given to the builder" % (okey, got, want),
+                           dict(lang=lang, key=okey, explicit=oval, file=fval))
+            elif tl.namespace_output_stem != "stemq%d" % k:
+                ctx.refute(None, "create() called again after a configuration file was added: the file's namespace_file_stem is not in effect (%r)" % tl.namespace_output_stem,
+                           dict(lang=lang, key=okey))
+            else:
+                ctx.count("second_create_after_file_agree")
+            del first
+
+
 def part_d(ctx, nruns):
     """The real CLI: --configuration files + flags, effective configuration read back with --list-configuration."""
     R = random.Random("c13d/%s" % ctx.seed)
@@ -526,6 +560,7 @@ def run(ctx):
     part_a(ctx, ctx.pick(1500, 40000))
     part_b(ctx, ctx.pick(600, 6000))
     part_c(ctx, ctx.pick(150, 1500))
+    part_c2(ctx)
     part_d(ctx, ctx.pick(96, 800))
     ctx.merge_counts(CONTRACT_EVALS)
     ctx.require("deep_update.post", 1000)
